@@ -28,7 +28,7 @@ if not os.path.realpath(nptdms.__file__).startswith(os.path.realpath(REPO) + os.
 from . import tdmsgen as G  # noqa: E402
 
 
-class Watchdog(Exception):
+class Watchdog(BaseException):
     pass
 
 
